@@ -50,7 +50,7 @@ class DL(ASTNode):
 class DP(ASTNode):
     one: ASTNode | None = None
     items: tuple[ASTNode, ...] = ()
-    tag: int = 0
+    changes: int = 0   # named like the **changes parameter of ASTNode.replace / dataclasses.replace
 
     def __len__(self) -> int:  # a container-like node: falsy in a boolean context while `items` is empty (it may still hold `one`)
         return len(self.items)
@@ -60,13 +60,13 @@ class DP(ASTNode):
 
     def __post_init__(self) -> None:
         ASTNode.__post_init__(self)
-        if self.tag == -1:
+        if self.changes == -1:
             raise ValueError("rejected by the model")
 
 
 U = Universe("c14", [
     C("DL", DL, [F("v", PROP, alphabet=(0, 1)), F("nc", PROP, alphabet=(0,), compare=False), F("ni", PROP, init=False, default=7)]),
-    C("DP", DP, [F("one", OPT), F("items", VAR, maxlen=3), F("tag", PROP, alphabet=(0,))]),
+    C("DP", DP, [F("one", OPT), F("items", VAR, maxlen=3), F("changes", PROP, alphabet=(0,))]),
 ])
 # "survived-rejected-replace": every node of the tree has been the receiver of a replace() that its model rejected late (the
 # new node already existed); the world must be indistinguishable from "registered"
@@ -76,7 +76,7 @@ SETUPS = [(reg, twin) for reg in ("registered", "detached", "survived-rejected-r
 def reject_everywhere(root):
     for n in walk(root):
         try:
-            n.replace(nc=-1) if isinstance(n, DL) else n.replace(tag=-1)
+            n.replace(nc=-1) if isinstance(n, DL) else n.replace(changes=-1)
         except ValueError:
             continue
         raise AssertionError("harness: the model did not reject the replace")
@@ -104,7 +104,7 @@ def changes_for(node, fresh):
         ch = [("v", {"v": node.v + 2}), ("nc", {"nc": 5}), ("origin", {"origin": zoo.O_B01})]
     else:
         leaf = fresh()
-        ch = [("tag", {"tag": 1}), ("one-none" if node.one is not None else "one-set", {"one": None if node.one is not None else leaf}),
+        ch = [("changes", {"changes": 1}), ("one-none" if node.one is not None else "one-set", {"one": None if node.one is not None else leaf}),
               ("items-append", {"items": node.items + (fresh(),)}), ("origin", {"origin": zoo.O_B01})]
         if node.items:
             ch.append(("items-reversed-or-empty", {"items": tuple(reversed(node.items)) if len(node.items) > 1 else ()}))
@@ -155,14 +155,23 @@ def same_id_worlds():
         return DP(one=x, items=(y,))
 
     def nested():
-        x = DP(one=DL(1, nc=1), tag=0)
+        x = DP(one=DL(1, nc=1), changes=0)
         y = x.replace(one=DL(1, nc=9))      # content-equal, other non-comparable value below; may share x's id
         return DP(items=(x, y))
 
     def wide():
         return DP(one=DL(0), items=tuple(DL(i % 4, nc=i) for i in range(12)))   # 12 elements with twins (two-digit suffixes)
 
-    return [("same-id-via-replace", via_replace), ("same-id-via-detach", via_detach), ("same-id-nested", nested), ("wide-tuple", wide)]
+    def tuple_subclass():
+        # a tuple field may hold an instance of a tuple SUBCLASS (a NamedTuple, a user's own sequence type)
+        return DP(one=DL(0), items=Kids((DL(1), DP(items=Kids((DL(2), DL(1)))))))
+
+    return [("same-id-via-replace", via_replace), ("same-id-via-detach", via_detach), ("same-id-nested", nested), ("wide-tuple", wide),
+            ("tuple-subclass", tuple_subclass)]
+
+
+class Kids(tuple):
+    """A tuple subclass (what typing.NamedTuple instances are)."""
 
 
 @dataclass(frozen=True)
